@@ -53,7 +53,7 @@ func main() {
 func (eng *Engine) funcsForProperty(prop string) []*ssa.Function {
 	var out []*ssa.Function
 	for fn, con := range eng.conOf {
-		if con.Trusted != "" {
+		if con.Trusted != "" || (con.Inline && len(con.Props) == 0) {
 			continue
 		}
 		if prop == "" || hasString(con.Props, prop) {
@@ -94,7 +94,11 @@ func solveAll(obls []*Obligation, outDir string, budgetMs, seed, workers int) []
 				res[i] = OblResult{O: o, File: file, R: solveResult{Status: "unknown", Output: "VC too large"}}
 				return
 			}
-			r := solve(file, budgetMs, seed)
+			b := budgetMs
+			if o.Cover && b > 1500 {
+				b = 1500 // reachability covers: a timeout is merely "undecided"
+			}
+			r := solve(file, b, seed)
 			res[i] = OblResult{O: o, R: r, File: file}
 		}(i, o)
 	}
@@ -166,6 +170,12 @@ func cmdDump(args []string) int {
 			fmt.Println("   note:", u)
 		}
 		all = append(all, fr.Obls...)
+	}
+	for _, f := range eng.cs.Frames {
+		if *prop == "" || hasString(f.Props, *prop) {
+			r := eng.checkFrame(f)
+			fmt.Printf("  frame %-50s ok=%v actual={%s} %s\n", r.Name, r.OK, strings.Join(r.Actual, ", "), r.Detail)
+		}
 	}
 	t0 := time.Now()
 	results := solveAll(all, verifDir+"/out/dump", *budget, 0, 16)
